@@ -178,6 +178,20 @@ pub fn main(a: &vcommon::Args) {
             println!("runs={} events={}", out.run, out.events);
             out.finish();
         }
+        // directed real-time schedules: keep-alive switched off (timer armed), two more steps, then wait past the deadline
+        "directed" => {
+            let mut out = Out::create(a.get(1));
+            let alpha = [json!({"c": "ka", "v": true}), json!({"c": "ka", "v": false}), json!({"c": "reqOut"}), json!({"c": "offerIn"}),
+                json!({"c": "poll"}), json!({"c": "sleepPoll", "ms": 80})];
+            for x in &alpha {
+                for y in &alpha {
+                    let cmds = vec![json!({"c": "ka", "v": false}), json!({"c": "poll"}), x.clone(), y.clone(), json!({"c": "poll"}), json!({"c": "sleepPoll", "ms": 90})];
+                    run_sched(&mut out, &json!({"cfg": {"concurrency": 2, "idle_ms": 60}, "cmds": cmds}));
+                }
+            }
+            println!("runs={} events={}", out.run, out.events);
+            out.finish();
+        }
         "random" => {
             let seed = a.num(1);
             let runs = a.num(2);
